@@ -20,7 +20,7 @@ RULE = ("cases from rng(seed, 5, 0, i): SE(2) (even i) / SE(3) (odd i) trajector
         "graph object after a vertex was fixed and another nudged), tol in 10^U(-10,-3), max_iter=50. distinct = spec fingerprint; non-trivial = initial chi2 > 100 x final chi2 or > 1e-6, "
         "with at least 2 complete iterations.")
 REQ = ["eval:chi2-not-increased", "eval:converged-within-50", "eval:newton-decrement-small", "eval:noise-free-ground-truth-recovered", "class:se2", "class:se3", "class:loops",
-       "class:landmarks", "class:noisy", "class:u_turns(relative rotation ~ pi)", "class:second_run_on_same_graph_after_edits", "class:landmarks_share_one_initial_guess_object"]
+       "class:landmarks", "class:noisy", "class:u_turns(relative rotation ~ pi)", "class:second_run_on_same_graph_after_edits", "class:landmarks_share_one_initial_guess_object", "class:landmark_prefixed_first_pose_fixed_by_default_argument", "class:edge_removed_between_runs"]
 PLAN = {
     "quick": {"cases": 2400, "soft_s": 90, "min_nontrivial": 500, "require": REQ},
     "thorough": {"cases": 24000, "soft_s": 1500, "min_nontrivial": 5000, "require": REQ},
@@ -58,6 +58,12 @@ def convergence_check(ctx, spec, k, tol, noise_free, n_loops=0, n_lm=0, max_iter
             w = free_pose[int(history_rng.integers(len(free_pose)))]
             if not w.fixed and all(math.isfinite(x) for x in M.fl(w.pose)):
                 w.pose = M.mkpose(k, gen.perturb(history_rng, k, M.fl(w.pose), 0.05, 0.03))
+        if history_rng.random() < 0.5:
+            # outlier rejection between the runs: a loop-closure edge is taken out of the graph's edge list (the chain keeps the graph connected)
+            loops = [e for e in g._edges if isinstance(e, M.EdgeOdometry) and isinstance(e.vertex_ids[0], int) and abs(e.vertex_ids[0] - e.vertex_ids[1]) > 1]
+            if loops:
+                g._edges.remove(loops[int(history_rng.integers(len(loops)))])
+                ctx.count("class:edge_removed_between_runs")
         ctx.count("class:second_run_on_same_graph_after_edits")
         noise_free = False  # a vertex frozen away from its true pose: the measurements are no longer all satisfiable
     case = {"graph": {kk: v for kk, v in spec.items() if kk != "truth"}, "tol": tol}
@@ -154,6 +160,15 @@ def run_case(ctx, i, rng):
         ctx.count("class:landmarks_share_one_initial_guess_object")
     spec = gen.trajectory_graph(rng, k, n, n_loops=n_loops, n_lm=n_lm, meas_t=mt, meas_r=mr, init_t=it, init_r=ir, cond=cond, cross=bool(rng.random() < 0.7), uturn=uturn,
                                 share_landmark_guess=share, q_signs=bool(rng.random() < 0.5))
+    if n_lm and not share and rng.random() < 0.25:
+        # a surveyed beacon: one landmark is held fixed at its true position, and the first pose is fixed only through the default
+        # fix_first_pose=True (it carries no flag itself)
+        lms = [j for j, v in enumerate(spec["vertices"]) if v["kind"] != k]
+        j = lms[int(rng.integers(len(lms)))]
+        spec["vertices"][j]["pose"] = [float(x) for x in spec["truth"][j]]
+        spec["vertices"][j]["fixed"] = True
+        spec["vertices"][0]["fixed"] = False
+        ctx.count("class:landmark_prefixed_first_pose_fixed_by_default_argument")
     if rng.random() < 0.1:
         spec["prebind_stale"] = True  # edges arrive linked to other Vertex objects with the same ids (a ground-truth graph built first)
         ctx.count("class:edges_prebound_to_stale_vertices")
